@@ -29,7 +29,7 @@ RULE = ('1-6 concurrent callRemote()s (with/without deadline, expectReply, decla
 STATE_MEASURE = 'order type of the completion events (return/error/timeout/loss/sigmismatch) of a run'
 PROBES = ['reply-and-deadline-both-enabled', 'reply-after-timeout', 'duplicate-reply-delivered',
           'unsolicited-reply-delivered', 'loss-with-pending-calls', 'replies-out-of-call-order',
-          'sig-mismatch', 'error-after-return', 'split-reply']
+          'sig-mismatch', 'call-issued-from-callback']
 COMPONENTS = {
     'real': ['txdbus.client.DBusClientConnection (callRemote, callRemoteMessage, '
              'methodReturnReceived, errorReceived, _onMethodTimeout, connectionLost, _cbCvtReply)',
@@ -75,6 +75,8 @@ def scenario(ctx):
     ctx.config.update(unix=unix)
 
     scripted = 'order' in ctx.preset
+    stashed = []                 # violations raised inside user callbacks (must not be swallowed)
+    chained = [False]            # a call was issued from inside a callback during this step
     calls = []
     by_serial = {}
     pending = {}                 # serial -> Call   (the model)
@@ -158,6 +160,17 @@ def scenario(ctx):
 
     rig.handlers.append(on_call)
 
+    # count the replies the connection has started to process (pass-through on the documented
+    # protocol hooks): a call issued from inside a callback can only be completed by replies
+    # that are processed after it was issued
+    replies_seen = [0]
+    frames_judged = [0]
+    for hookname in ('methodReturnReceived', 'errorReceived'):
+        def traced(msg, orig=getattr(cl, hookname)):
+            replies_seen[0] += 1
+            return orig(msg)
+        setattr(cl, hookname, traced)
+
     def issue(forced=None):
         cid = len(calls)
         c = Call(cid)
@@ -188,6 +201,7 @@ def scenario(ctx):
             raise Violation('C08/send', 'call-not-written',
                             'callRemote wrote %d messages' % (len(rig.sent) - nsent))
         c.serial = rig.sent[-1].serial
+        c.after_reply = replies_seen[0]
         if c.expect_reply:
             if c.serial in pending:
                 raise Violation('C08/serial-reuse', 'pending serial reused',
@@ -203,6 +217,20 @@ def scenario(ctx):
             by_serial[c.serial] = c
             c.done = ('value', None)
             expected.append(c)
+        if forced is None and ds.flag(0.15):
+            # user code reacting to the completion by issuing the next call from inside the
+            # callback, i.e. while the connection is still processing the reply / timeout / loss
+            def chain(result, cid=cid):
+                if budget[0] > 0 and cl.transport.state == net.OPEN and not scripted:
+                    budget[0] -= 1
+                    sim.probe('call-issued-from-callback')
+                    chained[0] = True
+                    try:
+                        issue()
+                    except Violation as v:
+                        stashed.append(v)
+                return None
+            d.addBoth(chain)
 
     def complete(c, how):
         c.done = how
@@ -251,12 +279,18 @@ def scenario(ctx):
     fired_dcs = set()
 
     def after_step():
+        if stashed:
+            raise stashed[0]
         # 1. replies whose last byte has now been delivered to the client
         if True:
             while inflight and inflight[0][0] <= pipe_dc.base:
                 _, m = inflight.pop(0)
+                frame_no = frames_judged[0]
+                frames_judged[0] += 1
                 rs = m.fields.get(rc.F_REPLY_SERIAL)
                 c = pending.get(rs)
+                if c is not None and frame_no < getattr(c, 'after_reply', 0):
+                    c = None        # this reply was processed before the call existed
                 if c is None:
                     if rs in by_serial:
                         sim.probe('duplicate-reply-delivered' if by_serial[rs].done and
@@ -315,7 +349,8 @@ def scenario(ctx):
                             'model expects completions %r, observed %r' %
                             ([(c.cid, c.done[0]) for c in exp], [(l, k) for l, k, _ in new]))
         lost_step = any(c.done[0] == 'lost' for c in exp)
-        if not lost_step and [c.cid for c in exp] != [l for l, _, _ in new]:
+        was_chained, chained[0] = chained[0], False
+        if not lost_step and not was_chained and [c.cid for c in exp] != [l for l, _, _ in new]:
             raise Violation('C08/order', 'completion order within one read',
                             'expected order %r observed %r' % ([c.cid for c in exp],
                                                                [l for l, _, _ in new]))
